@@ -195,6 +195,9 @@ type fxLayout struct {
 	dir     string
 	tags    []fxDesc
 	foreign map[string]bool
+	// indent: documents are written indented (as buildkit writes them), i.e. NOT in the encoding
+	// regclient itself would produce for the parsed value
+	indent bool
 }
 
 func newFxLayout(dir string) *fxLayout {
@@ -217,6 +220,13 @@ func (l *fxLayout) desc(mt string, b []byte) fxDesc {
 }
 
 func (l *fxLayout) json(v any) []byte {
+	if l.indent {
+		b, err := json.MarshalIndent(v, "", "  ")
+		if err != nil {
+			panic(err)
+		}
+		return b
+	}
 	b, err := json.Marshal(v)
 	if err != nil {
 		panic(err)
@@ -405,6 +415,21 @@ func buildFixtures(dir string) *fixtures {
 		idx := fxIndex{SchemaVersion: 2, MediaType: mtOCIIndex, Manifests: []fxDesc{c1, c2}, Annotations: baseAnn(true)}
 		l.tag("index2", l.desc(mtOCIIndex, l.json(idx)))
 		fx.shapes = append(fx.shapes, &shape{name: "index2", allOCI: true, comp: "gzip", hasVersion: true, hasOwner: true, hasStrip: true, hasInnerTar: true, isIndex: true, nImages: 2})
+	}
+
+	// ociind / idxind: the shapes oci and index2 again with every document indented: a manifest whose
+	// stored bytes differ from regclient's own encoding of it (options that change nothing must hand
+	// back exactly those bytes)
+	{
+		l.indent = true
+		l.tag("ociind", l.image("oci", "gzip", "amd64", t2021, []fxLayer{L.A, L.B, L.S}, histAB("A", "B", "S"), baseAnn(true), false, false))
+		fx.shapes = append(fx.shapes, &shape{name: "ociind", allOCI: true, comp: "gzip", hasVersion: true, hasOwner: true, hasStrip: true, hasInnerTar: true, amd64Only: true, nImages: 1})
+		c1 := l.image("oci", "gzip", "amd64", t2021, []fxLayer{L.A, L.B}, histAB("A", "B"), map[string]string{annoVersion: "2"}, false, false)
+		c2 := l.image("oci", "gzip", "arm64", t2021, []fxLayer{L.A, L.C}, histAB("A", "C"), map[string]string{annoVersion: "2"}, false, false)
+		idx := fxIndex{SchemaVersion: 2, MediaType: mtOCIIndex, Manifests: []fxDesc{c1, c2}, Annotations: baseAnn(true)}
+		l.tag("idxind", l.desc(mtOCIIndex, l.json(idx)))
+		fx.shapes = append(fx.shapes, &shape{name: "idxind", allOCI: true, comp: "gzip", hasVersion: true, hasOwner: true, hasStrip: true, hasInnerTar: true, isIndex: true, nImages: 2})
+		l.indent = false
 	}
 
 	// idxref: OCI index of one image (inline config data) + a buildkit-style attestation child named
